@@ -1138,11 +1138,19 @@ func (c1 complexConst) binaryOp(op ast.OperatorType, c2 constant) (constant, err
 		d1, d2 := toSameConstImpl(c1, c2)
 		return d1.binaryOp(op, d2)
 	}
+	// The real and imaginary parts are floating-point constants, even if
+	// they are represented as integers.
+	n1 = complexConst{r: fractional(n1.r), i: fractional(n1.i)}
+	n2 = complexConst{r: fractional(n2.r), i: fractional(n2.i)}
 	switch op {
-	case ast.OperatorEqual:
-		re, _ := n1.r.binaryOp(op, n2.r)
-		im, _ := n1.i.binaryOp(op, n2.i)
-		return re.(boolConst) && im.(boolConst), nil
+	case ast.OperatorEqual, ast.OperatorNotEqual:
+		re, _ := n1.r.binaryOp(ast.OperatorEqual, n2.r)
+		im, _ := n1.i.binaryOp(ast.OperatorEqual, n2.i)
+		eq := re.(boolConst) && im.(boolConst)
+		if op == ast.OperatorNotEqual {
+			return !eq, nil
+		}
+		return eq, nil
 	case ast.OperatorAddition, ast.OperatorSubtraction:
 		re, _ := n1.r.binaryOp(op, n2.r)
 		im, _ := n1.i.binaryOp(op, n2.i)
@@ -1231,6 +1239,20 @@ func (c1 complexConst) equals(c2 constant) bool {
 		return d1.equals(d2)
 	}
 	return n1.r.equals(n2.r) && n1.i.equals(n2.i)
+}
+
+// fractional returns c with an implementation whose division is not the
+// integer division and whose operations do not overflow. It is used to
+// operate on floating-point and complex constants that are represented as
+// integers.
+func fractional(c constant) constant {
+	switch c := c.(type) {
+	case int64Const:
+		return newRatConst(int64(c), 1)
+	case intConst:
+		return ratConst{r: new(big.Rat).SetInt(c.i)}
+	}
+	return c
 }
 
 // toSameConstImpl returns the two constants with the same implementation type
